@@ -267,7 +267,9 @@ def enumerate_faults(ws, rng):
             types = {t for t, _ in mods[name]}
             n = 1 if types & {"normfactor", "normsys", "histosys", "lumi"} else max(b for _, b in mods[name])
             existing = next((i for i, p in enumerate(plist) if p["name"] == name), None)
-            for key, good in (("inits", [1.0] * n), ("bounds", [[0.0, 5.0]] * n), ("auxdata", [1.0] * n), ("sigmas", [0.1] * n)):
+            for key, good in (("inits", [1.0] * n), ("bounds", [[0.0, 5.0]] * n), ("auxdata", [1.0] * n), ("sigmas", [0.1] * n), ("factors", [4.0] * n)):
+                if key == "factors" and types != {"shapesys"}:
+                    continue   # only Poisson-constrained sets use factors
                 if key in ("auxdata", "sigmas") and not types & {"normsys", "histosys", "staterror", "lumi"}:
                     continue
                 if key == "sigmas" and types & {"shapesys"}:
